@@ -100,7 +100,7 @@ def gen_shim_cases(ctx):
         picks = [(p, f) for p in big for f in ["-", "0:5", "2:7", "4:9", "1:5,3:6"]]
         rnd.shuffle(picks)
         for prog, fails in picks[:4]:
-            cases.append("c%d 3 %s %s dfs 2 1 60000 1" % (cid, prog, fails))
+            cases.append("c%d 3 %s %s dfs 2 1 40000 1" % (cid, prog, fails))
             cid += 1
         nrand = 3000
     # random schedules (3 workers, 5 items), no state cache
@@ -266,7 +266,10 @@ def build_all(ctx):
 
 def shim_tie(ctx, ex, cases, timeout):
     """run the DFS / random harness on `cases`, replay every execution on the model, compare."""
-    parts = chunks(cases, NPROC)
+    # round-robin, expensive (bounded 3x5 DFS, random) cases spread over the processes
+    order = sorted(range(len(cases)), key=lambda i: (0 if " dfs 2 " in cases[i] else 1 if " rand " in cases[i] else 2, i))
+    parts = [[cases[i] for i in order[k::NPROC]] for k in range(NPROC)]
+    parts = [p for p in parts if p]
 
     def one(part):
         rc, out, err = run_proc([ex["pool"]], "\n".join(part) + "\n", timeout)
@@ -374,7 +377,7 @@ def serial_tie(ctx, ex, cases):
 
 
 def real_runs(ctx, exe, cases, tag, env):
-    """unshimmed pool, real threads.  Returns number of cases run."""
+    """unshimmed pool, real threads (or the block processor on the shim).  Returns (#cases run, #unreported)."""
     parts = chunks(cases, 6)
 
     def one(part):
@@ -398,7 +401,24 @@ def real_runs(ctx, exe, cases, tag, env):
                 continue
             if v == "HANG":
                 sig = "hang:%s" % tag
-                what = "%s: call did not return within the watchdog time (real threads): %s" % (tag, f[0])
+                if sig in seen:
+                    continue
+                what = "%s: call did not return (%s): %s" % (
+                    tag, "scheduler: no runnable thread" if tag == "blkshim" else
+                    "watchdog, real threads; reproduced when re-run alone", f[0])
+                if tag != "blkshim":
+                    # a watchdog expiry is timing evidence: only a hang that reproduces when the case is
+                    # re-run alone counts (this box may be heavily loaded by other checks)
+                    again = 0
+                    for _ in range(3):
+                        rc1, out1, _e = run_proc([exe], f[0] + "\n", 120, env)
+                        if "| HANG |" in out1:
+                            again += 1
+                            break
+                    if not again:
+                        ctx.notes.append("%s: watchdog expired once on '%s' but 3 re-runs completed (machine load); "
+                                         "not counted" % (tag, f[0]))
+                        continue
             else:
                 sig = "%s:%s" % (tag, v)
                 what = "%s: %s on %s" % (tag, v, l)
